@@ -20,7 +20,7 @@ FORBIDDEN = re.compile(r"\b(Admitted|admit|Axiom|Parameter|Conjecture|Unset Guar
 
 def sh(cmd, cwd=None, env=None, timeout=None, inp=None):
     p = subprocess.run(cmd, cwd=cwd, env=env, timeout=timeout, input=inp, shell=isinstance(cmd, str),
-                       stdout=subprocess.PIPE, stderr=subprocess.STDOUT, text=True)
+                       stdout=subprocess.PIPE, stderr=subprocess.STDOUT, text=True, errors="replace")
     return p.returncode, p.stdout
 
 
@@ -214,7 +214,7 @@ class Verdict:
                     tried.append(s)
                     try:
                         p = subprocess.run([sys.executable, os.path.join(VERIF, "bin", "check"), self.prop, "--tier", self.tier, "--seed", str(s)],
-                                           env=dict(os.environ, VERIF_SEARCH="1"), stdout=subprocess.PIPE, stderr=subprocess.STDOUT, text=True, timeout=3300)
+                                           env=dict(os.environ, VERIF_SEARCH="1"), stdout=subprocess.PIPE, stderr=subprocess.STDOUT, text=True, errors="replace", timeout=3300)
                     except subprocess.TimeoutExpired:
                         continue
                     hit = [l for l in p.stdout.splitlines() if l.startswith("VIOLATION") and "no-failing-input-found" not in l]
@@ -311,7 +311,7 @@ def run_engine(name, args, outdir, timeout=3000):
 def run_model(engine, ops_path, out_path, timeout=3000):
     with open(ops_path) as fi, open(out_path, "w") as fo:
         p = subprocess.run([os.path.join(OCAML, "modelrun"), engine], stdin=fi, stdout=fo, stderr=subprocess.PIPE,
-                           timeout=timeout, text=True)
+                           timeout=timeout, text=True, errors="replace")
     return p.returncode, p.stderr
 
 
